@@ -54,7 +54,11 @@ ASSUMPTIONS = [
     "bounded response: a data packet starts at most 2 cycles after the IN request; ERDY is requested at most 2 cycles "
     "after data is available and the generator is ready",
 ]
-BOUNDS = "BMC from reset, K=12 (quick) / K=18 (thorough, plus best-effort K=22); all stream/host/link/generator timing inputs free"
+BOUNDS = "BMC from reset, K=12 (quick) / K=18 (thorough, plus best-effort K=22); all stream/host/link/generator timing inputs " \
+         "free.  bmc_seq_wrap: the same BMC from the pre-state in which the endpoint's sequence_number register and the " \
+         "host model's expected sequence number both hold an arbitrary s0 (every other register at its reset value), " \
+         "K=12 / 16: covers the 31 -> 0 wrap, which from reset needs 32 acknowledged packets.  That pre-state is the " \
+         "reset state up to the counter value; it is an over-approximation of the reachable idle states only in that one register"
 OUTSIDE = "ep_reset; bursts (NumP > 1 treated as 1); packet sizes other than 8; more than 4 queued packets; the real " \
           "link layer and TransactionPacketGenerator (their contracts are C45 and the link properties)"
 
@@ -64,15 +68,16 @@ QD = 4          # reference queue depth
 
 ASSERTS = ["in_gets_data", "in_gets_nrdy", "erdy_after_nrdy", "sequence", "length", "payload_order", "unsolicited",
            "bytes_match_length", "tp_endpoint", "dp_endpoint", "accepts_only_what_it_holds"]
-COVERS = ["in_gets_data", "in_gets_nrdy", "erdy_after_nrdy", "sequence", "length", "payload_order", "retry_resend",
+COVERS = ["seq_wraps", "in_gets_data", "in_gets_nrdy", "erdy_after_nrdy", "sequence", "length", "payload_order", "retry_resend",
           "zlp_sent", "second_packet", "tracked_delivered", "short_packet"]
 
 
 class SSInHarness(Harness):
     domains = ("ss",)
 
-    def __init__(self):
+    def __init__(self, seq0=False):
         super().__init__()
+        self.seq0 = seq0
         from luna.gateware.usb.usb3.endpoints.stream import SuperSpeedStreamInEndpoint
         self.dut = dut = SuperSpeedStreamInEndpoint(endpoint_number=EP, max_packet_size=MPS)
         itf = dut.interface
@@ -95,6 +100,12 @@ class SSInHarness(Harness):
         # generator completion
         self.tp_done = self.inp("tp_done", 1)
         self.k = self.inp("k", 3, const=True)            # tracked stream word index
+        if seq0:
+            # symbolic pre-state: the endpoint's sequence counter and the host's expectation both start at s0 (the state
+            # after s0 acknowledged packets), so that the 5-bit wrap-around 31 -> 0 is within a short bound
+            self.s0 = self.inp("s0", 5, const=True)
+            self.sym_reg("host_seq", "s0")                  # the monitor's expectation register (elaborate)
+            self.sym_reg("dut.sequence_number", "s0")
         self.a_stream = self.assume("stream_contract")
         self.a_host = self.assume("host_contract")
         self.v = {n: self.viol(n) for n in ASSERTS}
@@ -334,6 +345,7 @@ class SSInHarness(Harness):
             c["in_gets_nrdy"].eq(nrdy_req & inreq),
             c["erdy_after_nrdy"].eq(erdy_done & (hs == 4)),
             c["sequence"].eq(pkt_begin & (h_seq == 2)),
+            c["seq_wraps"].eq(pkt_begin & (h_seq == 0) & (self.s0 == 31 if self.seq0 else 0)),
             c["length"].eq(dp_start & data_for_req & (exp_len == MPS)),
             c["payload_order"].eq(tracked_out & t_seen & (self.k == 2)),
             c["retry_resend"].eq(pkt_begin & retry_pending),
@@ -361,9 +373,14 @@ def queries(tier):
     f = SSInHarness
     quick = tier == "quick"
     qs = [
-        Query("bmc_free", f, 12 if quick else 18, timeout=900,
+        Query("bmc_free", f, 12 if quick else 18, timeout=900, covers=[c for c in COVERS if c != "seq_wraps"],
               desc="stream, host, link and generator timing free every cycle"),
         Query("cosim", f, 0, kind="cosim", cosim_cycles=200 if quick else 1000),
+        Query("bmc_seq_wrap", lambda: SSInHarness(seq0=True), 12 if quick else 16, timeout=900,
+              asserts=["sequence", "unsolicited", "in_gets_data", "payload_order", "length"], covers=["seq_wraps"],
+              desc="same environment from the pre-state 'sequence number = host expectation = s0' for every s0 (all other "
+                   "registers at reset): sequence numbering across the 5-bit wrap"),
+        Query("cosim_seq", lambda: SSInHarness(seq0=True), 0, kind="cosim", cosim_cycles=100),
     ]
     if not quick:
         qs.append(Query("bmc_free_deep", f, 22, timeout=900, covers=[], required=False,
